@@ -343,6 +343,172 @@ Proof.
   conj_split; vm_compute; reflexivity.
 Qed.
 
+(* ===================================== TREE LEVEL ===================================== *)
+(* C17 carried through the models that tie the abstract layer to REAL syntax trees (Model/Annot.v, DefTree.v,
+   WsTree.v, HierTree.v, Report.v).  Proofs/RecaseTree.v, RecaseWsTree.v, RecaseHierTree.v; witnesses (real-parser
+   dumps, every keyword and reference re-cased by hand) in RecaseTreeWitness.v / RecaseTreeExamples.v.
+     t ~ref t'   (RecaseTree.ref_sim)  the trees are equal except for the letter case of keywords and REFERENCES:
+                 same kinds, offsets, ranges, shape; identifiers and word tokens equal ignoring case; every declaring
+                 node carries the same identifier / name token / name node.
+     ws_ref      same file stems, trees pairwise ~ref. *)
+From GoldV Require Import Encase Annot AnnotProofs DefTree WsTree HierTree.
+From GoldV Require Report.
+From GoldV Require Import RecaseTree RecaseWsTree RecaseHierTree RecaseTreeWitness RecaseTreeExamples.
+From GoldV Require WsTreeWitness DefTreeWitness ReportWitness HierTreeWitness.
+
+(* ~ref IS the conclusion of C17_tree_shape (node_sim) restricted to "declarations left as written" (decl_exact) *)
+Theorem C17_tree_ref_sim_is_parser_similarity :
+  forall t t', ref_sim t t' <-> node_sim t t' /\ decl_exact t t'.
+Proof. exact ref_sim_iff. Qed.
+
+(* ... so the chain composes: a re-cased text gives a document whose tree is ~ref the original one as soon as the
+   declared names were left as written; parser diagnostics and lexical errors are identical *)
+Theorem C17_tree_text_to_ref_sim :
+  forall text text', text_recased text text' ->
+    exists d d', document_of text = Some d /\ document_of text' = Some d' /\
+      pd_diags d = pd_diags d' /\ pd_lexerrs d' = pd_lexerrs d /\
+      (decl_exact (pd_root d) (pd_root d') -> ref_sim (pd_root d) (pd_root d')).
+Proof. exact recased_text_ref_sim. Qed.
+
+(* the annotator's tables (both modes), one by one: same for_class_or_module, same symbols_list (declared names,
+   kinds, selection ranges, ranges); uses_entities pairwise equal IGNORING CASE *)
+Theorem C17_tree_annot :
+  forall d t t', ref_sim t t' ->
+    Forall2 (fun T T' => t_cls T = t_cls T' /\ t_syms T = t_syms T' /\ Forall2 ci_eq (t_uses T) (t_uses T'))
+            (tables_of d t) (tables_of d t').
+Proof. exact annot_recase. Qed.
+
+(* "the tables are equal" is false: uses_entities keeps the reference as written *)
+Theorem C17_tree_annot_uses_refuted :
+  exists t t', ref_sim t t' /\ tables_of false t <> tables_of false t'.
+Proof. exact annot_uses_refuted. Qed.
+
+(* the assembled diagnostics response: IDENTICAL, item by item and in order, naming rules included *)
+Theorem C17_tree_report :
+  forall t t' pd, ref_sim t t' -> Report.report t pd = Report.report t' pd.
+Proof. exact report_recase. Qed.
+
+(* one document: go-to-definition and completion at every position, for every file stem *)
+Theorem C17_tree_deftree :
+  forall t t' stem p, ref_sim t t' ->
+    definition t stem p = definition t' stem p /\ completion t stem p = completion t' stem p.
+Proof. exact deftree_recase. Qed.
+
+(* workspaces: same links (file stem, selection range, range), same labels, same classification Outside / answer,
+   for every document and every position: class index, parent walk, `uses` loop, typed operands *)
+Theorem C17_tree_wstree :
+  forall ws ws' a p, ws_ref ws ws' ->
+    wdefinition ws a p = wdefinition ws' a p /\ wcompletion ws a p = wcompletion ws' a p.
+Proof. exact wstree_recase. Qed.
+
+(* the class tree of two file lists equal up to the letter case of class names and parent references, in any order,
+   forest or not, any size: the same heap and map, node ids equal ignoring case *)
+Theorem C17_tree_forest :
+  forall fs fs', Forall2 (fun f f' => ci_eq (fst f) (fst f') /\ opt_rel ci_eq (snd f) (snd f')) fs fs' ->
+    Forall2 (fun n n' => ci_eq (Forest.nid n) (Forest.nid n') /\ Forest.npar n = Forest.npar n' /\ Forest.nkids n = Forest.nkids n')
+            (Forest.heap (Forest.build fs)) (Forest.heap (Forest.build fs')) /\
+    Forest.emap (Forest.build fs) = Forest.emap (Forest.build fs').
+Proof. exact forest_recase. Qed.
+
+(* the type hierarchy: prepare at every position of every document, supertypes and subtypes of every item are
+   IDENTICAL, names included (an item is made from the declaring file's symbol, never from the reference) *)
+Theorem C17_tree_hiertree :
+  forall ws ws', ws_ref ws ws' ->
+    (forall a d d' p, nth_error ws a = Some d -> nth_error ws' a = Some d' -> prepare ws d p = prepare ws' d' p) /\
+    (forall it, supertypes_of ws (class_tree ws) it = supertypes_of ws' (class_tree ws') it) /\
+    (forall it, subtypes_of ws (class_tree ws) it = subtypes_of ws' (class_tree ws') it).
+Proof. exact hiertree_recase. Qed.
+
+Theorem C17_tree_class_tree :
+  forall ws ws', ws_ref ws ws' ->
+    forall k, Forest.kparent (class_tree ws) k = Forest.kparent (class_tree ws') k /\
+              Forest.kchildren (class_tree ws) k = Forest.kchildren (class_tree ws') k /\
+              Forest.keys (class_tree ws) = Forest.keys (class_tree ws').
+Proof. exact hiertree_class_tree_recase. Qed.
+
+(* the item name before /repo 3e4a84d (the node id = the spelling seen first) DID change under re-casing *)
+Theorem C17_tree_old_item_name_refuted :
+  exists ws ws' k, ws_ref ws ws' /\
+    Forest.old_item_name (class_tree ws) k <> Forest.old_item_name (class_tree ws') k /\
+    Forest.key_of (class_tree ws) 1 = Forest.key_of (class_tree ws') 1.
+Proof. exact hiertree_old_item_name_refuted. Qed.
+
+(* non-vacuity, on real-parser trees: the four-document workspace of WsTreeWitness.v with every keyword and every
+   reference re-cased (`CLASS aChild (APARENT)`, `USES alib`, `L = P + FC + Fp + CLIB`, `Self.BASE`, `q : ACHILD`,
+   `Q.FC`, `ALIB.clib`) *)
+Example C17_tree_wstree_nonvacuous :
+  ws_ref WsTreeWitness.wsx2 rc_wsx2 /\ WsTreeWitness.wsx2 <> rc_wsx2 /\ distinct_stems rc_wsx2 = true /\
+  wdefinition rc_wsx2 0 (mkPos 5 14) = Ans [(WsTreeWitness.wx_aParent, WsTreeWitness.wrg 2 0 2 2, WsTreeWitness.wrg 2 0 2 9)] /\
+  wdefinition rc_wsx2 0 (mkPos 5 19) = Ans [(WsTreeWitness.wx_aLib, WsTreeWitness.wrg 1 6 1 10, WsTreeWitness.wrg 1 0 1 14)] /\
+  wdefinition rc_wsx2 3 (mkPos 2 3) = Ans [(WsTreeWitness.wx_aChild, WsTreeWitness.wrg 2 0 2 2, WsTreeWitness.wrg 2 0 2 9)] /\
+  wdefinition rc_wsx2 3 (mkPos 3 6) = Ans [(WsTreeWitness.wx_aLib, WsTreeWitness.wrg 1 6 1 10, WsTreeWitness.wrg 1 0 1 14)] /\
+  wcompletion rc_wsx2 3 (mkPos 2 3) = Ans [[102;99]; WsTreeWitness.wx_Run; WsTreeWitness.wx_Base; WsTreeWitness.wx_fp].
+Proof.
+  destruct wstree_recase_nonvacuous as (A1 & A2 & A3 & A4 & A5 & _ & _ & A8 & A9 & _ & A11 & _).
+  conj_split; assumption.
+Qed.
+
+Example C17_tree_annot_nonvacuous :
+  ref_sim WsTreeWitness.wsx_child rc_child /\ WsTreeWitness.wsx_child <> rc_child /\
+  map t_uses (tables_of false WsTreeWitness.wsx_child) = [[s2l "aLib"]; [s2l "aLib"]; [s2l "aLib"]] /\
+  map t_uses (tables_of false rc_child) = [[s2l "alib"]; [s2l "alib"]; [s2l "alib"]] /\
+  map t_syms (tables_of false WsTreeWitness.wsx_child) = map t_syms (tables_of false rc_child).
+Proof.
+  destruct annot_recase_nonvacuous as (A1 & A2 & A3 & A4 & _ & A6). conj_split; assumption.
+Qed.
+
+Example C17_tree_report_nonvacuous :
+  ref_sim ReportWitness.w_resp rc_resp /\ ReportWitness.w_resp <> rc_resp /\
+  Report.report ReportWitness.w_resp ReportWitness.w_resp_pd = Report.report rc_resp ReportWitness.w_resp_pd /\
+  length (Report.report rc_resp ReportWitness.w_resp_pd) = 15%nat.
+Proof. exact report_recase_nonvacuous. Qed.
+
+Example C17_tree_deftree_nonvacuous :
+  ref_sim DefTreeWitness.deftree_ex rc_deftree /\ DefTreeWitness.deftree_ex <> rc_deftree /\
+  definition rc_deftree DefTreeWitness.dx_aFoo (mkPos 5 10) = Ans [(DefTreeWitness.rg 3 19 3 21, DefTreeWitness.rg 3 19 3 28)] /\
+  definition rc_deftree DefTreeWitness.dx_aFoo (mkPos 6 7) = Ans [(DefTreeWitness.rg 2 0 2 2, DefTreeWitness.rg 2 0 2 9)] /\
+  completion rc_deftree DefTreeWitness.dx_aFoo (mkPos 6 7) <> Ans [] /\
+  completion rc_deftree DefTreeWitness.dx_aFoo (mkPos 6 7) <> Outside.
+Proof.
+  destruct deftree_recase_nonvacuous as (A1 & A2 & _ & A4 & A5 & _ & A7 & A8). conj_split; assumption.
+Qed.
+
+Example C17_tree_hiertree_nonvacuous :
+  ws_ref HierTreeWitness.ht_ws rc_ht_ws /\ HierTreeWitness.ht_ws <> rc_ht_ws /\
+  files_of_ws rc_ht_ws = [ (s2l "aKa", None); (s2l "aKb", Some (s2l "aka")); (s2l "aKc", Some (s2l "AKB")) ] /\
+  match supertypes_of rc_ht_ws (class_tree rc_ht_ws) rc_item_foo_kc with
+  | Ans (ROk [it]) => i_name it = s2l "Foo" /\ i_uri it = s2l "aKb"
+  | _ => False
+  end /\
+  match subtypes_of rc_ht_ws (class_tree rc_ht_ws) rc_item_ka with
+  | Ans (ROk [it]) => i_name it = s2l "aKb" /\ i_uri it = s2l "aKb"
+  | _ => False
+  end /\
+  match prepare rc_ht_ws (s2l "aKb", rc_kb) (mkPos 5 4) with
+  | Ans (ROk [it]) => i_name it = s2l "fld"
+  | _ => False
+  end.
+Proof.
+  destruct hiertree_recase_nonvacuous as (A1 & A2 & A3 & _ & A5 & A6 & _ & A8). conj_split; assumption.
+Qed.
+
+(* the finding hier-after-dot-own-class-spelling (checks/c17.py tree_recase stage): for the right operand of a dot,
+   prepareTypeHierarchy compares the left operand's class with the class being annotated by EXACT spelling and then
+   looks the member up from the nearest table (same spelling) resp. the class's table by the index (other spelling);
+   the two branches do not reach the same symbol when a local of the method has the member's name.  The model
+   classifies that position Outside for both spellings (so C17_tree_hiertree says nothing about it) *)
+Theorem C17_tree_hier_after_dot_branches_refuted :
+  ref_sim hd_own hd_other /\ hd_own <> hd_other /\
+  match chain_for hd_own (descend (mkPos 4 9) hd_own) with
+  | Some ch =>
+      option_map (fun h => a_kind (snd h)) (lookup ch (s2l "GetLink")) = Some KVariable /\
+      option_map (fun h => a_kind (snd h)) (lookup (class_level_t ch) (s2l "GetLink")) = Some KFunc
+  | None => False
+  end /\
+  prepare [(s2l "aBeta", hd_own)] (s2l "aBeta", hd_own) (mkPos 4 9) = Outside /\
+  prepare [(s2l "aBeta", hd_other)] (s2l "aBeta", hd_other) (mkPos 4 9) = Outside.
+Proof. exact hier_after_dot_branches_refuted. Qed.
+
 Print Assumptions C17_keyword.
 Print Assumptions C17_lexer.
 Print Assumptions C17_lexer_mask.
@@ -375,3 +541,20 @@ Print Assumptions C17_operand_spelling.
 Print Assumptions C17_completion_nonvacuous.
 Print Assumptions C17_hierarchy.
 Print Assumptions C17_hierarchy_nonvacuous.
+Print Assumptions C17_tree_ref_sim_is_parser_similarity.
+Print Assumptions C17_tree_text_to_ref_sim.
+Print Assumptions C17_tree_annot.
+Print Assumptions C17_tree_annot_uses_refuted.
+Print Assumptions C17_tree_report.
+Print Assumptions C17_tree_deftree.
+Print Assumptions C17_tree_wstree.
+Print Assumptions C17_tree_forest.
+Print Assumptions C17_tree_hiertree.
+Print Assumptions C17_tree_class_tree.
+Print Assumptions C17_tree_old_item_name_refuted.
+Print Assumptions C17_tree_wstree_nonvacuous.
+Print Assumptions C17_tree_annot_nonvacuous.
+Print Assumptions C17_tree_report_nonvacuous.
+Print Assumptions C17_tree_deftree_nonvacuous.
+Print Assumptions C17_tree_hiertree_nonvacuous.
+Print Assumptions C17_tree_hier_after_dot_branches_refuted.
